@@ -217,7 +217,8 @@ def run(ctx, arg, rec):
 def parts(ctx):
     q = ctx.quick
     return [Part("cpumix%02d" % i, run, (i, 40 if q else 1500, "cpumix")) for i in range(8)] + [Part("wide%02d" % i, run, (i, 40 if q else 1200, "wide")) for i in range(8)] + [
-        Part("residual%02d" % i, run, (i, 40 if q else 1200, "residual")) for i in range(4)] + [Part("fanout%02d" % i, run, (i, 30 if q else 1000, "fanout")) for i in range(2)]
+        Part("residual%02d" % i, run, (i, 40 if q else 1200, "residual")) for i in range(4)] + [Part("fanout%02d" % i, run, (i, 30 if q else 1000, "fanout")) for i in range(2)] + [
+        Part("rnn%02d" % i, run, (i, 16 if q else 500, "rnn")) for i in range(2)]
 
 
 def replay(ctx, case):
